@@ -1,9 +1,11 @@
 /-
   C16 — no layout tables ⇒ cmap + metrics; axis discipline.
-  Property theorems only; helper lemmas are in Lemmas/Pipeline.lean.
+  Property theorems only; helper lemmas are in Lemmas/Pipeline.lean (default shaper pipeline), Lemmas/GposDevice.lean and
+  Lemmas/NormOwn.lean (the normalizer in every mode: when a mapped character keeps its own glyph).
 -/
 import RbModel.Lemmas.Pipeline
 import RbModel.Lemmas.GposDevice
+import RbModel.Lemmas.NormOwn
 
 namespace RbModel.Pipeline
 open RbModel.Gen.Pipeline
@@ -368,3 +370,112 @@ example : ∃ q f1 f2, pairApplyD { yAdvDevice := some 3 } { xAdvance := 2 } tru
   ⟨_, _, _, rfl⟩
 
 end RbModel.Gpos
+
+/-! ## a character the font maps keeps its own glyph — in every normalization mode
+
+`Pipeline.lean` models the default shaper only (normalization mode COMPOSED_DIACRITICS, which short-circuits on a
+supported character).  The first sentence of C16 is about every shaper; the part of it that depends on the shaper is
+`decompose_current_character` (ot_shape_normalize.rs), reached with `shortest = false` under the Indic / Khmer / Myanmar /
+USE shapers (mode COMPOSED_DIACRITICS_NO_SHORT_CIRCUIT) and, under every normalizing shaper, for a character that is
+directly followed by a combining mark.  These theorems are about `Norm.lean` (all five modes), tied to the crate by the
+`norm-run-mapped` stream of tools/props/C16.py. -/
+
+namespace RbModel.Norm
+
+/-- **C16, every mode: a character the font maps is rendered with its own glyph unless the mode prefers its
+    decomposition, and the mode prefers the decomposition exactly when it does not short-circuit and the font supports a
+    decomposition candidate** (`Cand U F c k out`, Lemmas/Norm.lean: following `k` links of the chain of first components
+    reaches a character the font maps, every second component on the way being mapped).
+    (1) own glyph: record, unicode props and scratch flags untouched — neither the space fallback nor the
+        U+2011 → U+2010 fallback nor .notdef is reached;
+    (2) otherwise the output is the deepest supported candidate, every piece with the glyph the font assigns to it. -/
+theorem C16_mapped_character_own_glyph (U : UData) (F : Font) (K : Consts) (fuel : Nat) (shortest : Bool)
+    (x : Info) (flags g : Nat) (hg : F.glyph x.cp = some g) (hfuel : (decompose U F false fuel x.cp).isSome) :
+    ((shortest = true ∨ ∀ k out, ¬Cand U F x.cp k out) →
+      decomposeCurrentCharacter U F K fuel shortest x flags = some ([{ x with gidx := g }], flags)) ∧
+    (shortest = false → (∃ k out, Cand U F x.cp k out) →
+      ∃ k l f, decomposeCurrentCharacter U F K fuel shortest x flags = some (l, f) ∧ Cand U F x.cp k (l.map (·.cp)) ∧
+        (∀ i ∈ l, F.glyph i.cp = some i.gidx ∧ i.cluster = x.cluster ∧ i.mask = x.mask) ∧
+        (∀ k' out', Cand U F x.cp k' out' → k' ≤ k)) := by
+  obtain ⟨r, hr⟩ := Option.isSome_iff_exists.mp hfuel
+  have sh := decompose_full U F fuel x.cp r hr
+  refine ⟨fun h => ?_, fun hs hex => ?_⟩
+  · apply dcc_own U F K fuel shortest x flags g hg
+    rcases h with h | h
+    · exact Or.inl h
+    · refine Or.inr ?_
+      have h0 : r = [] := by
+        apply Classical.byContradiction
+        intro hne
+        obtain ⟨k, hk1, _, _⟩ := sh.1 hne
+        exact h _ _ hk1
+      rw [hr, h0]
+  · subst hs
+    have hne : r ≠ [] := by
+      intro h0
+      obtain ⟨k, out, hc⟩ := hex
+      exact sh.2 h0 k out hc
+    obtain ⟨k, hk1, hk2, hk3⟩ := sh.1 hne
+    cases r with
+    | nil => exact absurd rfl hne
+    | cons p ps =>
+      have sp := outputChars_spec U K x (p :: ps) flags
+      refine ⟨k, (outputChars U K x (p :: ps) flags).1, (outputChars U K x (p :: ps) flags).2,
+        dcc_prefers U F K fuel x flags p ps hr, by rw [sp.1]; exact hk1, ?_, hk3⟩
+      have hz := zip_mem (outputChars U K x (p :: ps) flags).1 (·.cp) (·.gidx) (p :: ps) sp.1 sp.2.1
+      intro i hi
+      exact ⟨hk2 _ (hz i hi), sp.2.2 i hi⟩
+
+/-- non-vacuity of (2): U+00C5 in a font that has U+00C5, A and the ring: the candidate `A, U+030A` exists, so a mode
+    that does not short-circuit decomposes the mapped character -/
+example : let F : Font := { glyph := fun c => if c = 0xC5 ∨ c = 0x41 ∨ c = 0x30A then some 1 else none }
+    F.glyph 0xC5 = some 1 ∧ Cand genU F 0xC5 1 [0x41, 0x30A] ∧ (decompose genU F false genFuel 0xC5).isSome := by
+  intro F
+  have d1 : genU.decomp 0xC5 = some (0x41, 0x30A) := by decide +kernel
+  exact ⟨by decide, Cand.base d1 (by decide) (Or.inr (by decide)), by decide +kernel⟩
+
+/-- **C16, whole runs**: a run of characters the font maps, none of which the mode decomposes, goes through the
+    first round (`decompose_current_character` one by one, and the `might_short_circuit` fast path) as itself with the
+    font's glyphs; the scratch flags do not change. -/
+theorem C16_mapped_run_own_glyphs (U : UData) (F : Font) (K : Consts) (fuel : Nat) (shortest : Bool) (G : Nat → Nat)
+    (xs : List Info) (flags : Nat)
+    (h : ∀ x ∈ xs, F.glyph x.cp = some (G x.cp) ∧ (shortest = true ∨ decompose U F false fuel x.cp = some [])) :
+    decomposeRun U F K fuel shortest xs flags = some (xs.map (own G), flags) ∧
+    simpleRun U F K fuel shortest xs flags = some (xs.map (own G), flags) :=
+  ⟨decomposeRun_own U F K fuel shortest G xs flags h, simpleRun_own U F K fuel shortest G xs flags h⟩
+
+example : ∃ (F : Font) (xs : List Info), xs ≠ [] ∧
+    ∀ x ∈ xs, F.glyph x.cp = some 7 ∧ (false = true ∨ decompose genU F false genFuel x.cp = some []) :=
+  ⟨{ glyph := fun _ => some 7 }, [{ cp := 0x2011, mask := 0, cluster := 0, gidx := 0, props := {} }], by simp,
+    by intro x hx; simp at hx; subst hx; exact ⟨rfl, Or.inr (by decide +kernel)⟩⟩
+
+/-- **C16, a one-character buffer under every normalization preference** (0 none … 4 auto): a mapped character for
+    which the font supports no decomposition candidate — in particular every character without a canonical
+    decomposition, U+2011 included — comes out of `_hb_ot_shape_normalize` as itself with its own glyph; under the
+    preferences that may short-circuit this holds whatever the font supports. -/
+theorem C16_mapped_single_every_mode (U : UData) (F : Font) (K : Consts) (fuel pref : Nat) (x : Info) (flags g : Nat)
+    (hg : F.glyph x.cp = some g)
+    (h : mightPref pref ∨ decompose U F false fuel x.cp = some []) :
+    normalize U F K fuel pref [x] flags = some ([{ x with gidx := g }], flags) := by
+  rw [normalize_single]
+  have hd := dcc_own U F K fuel
+    ((if pref = 4 then 2 else pref) == 0 || ((if pref = 4 then 2 else pref) != 1 && (if pref = 4 then 2 else pref) != 3))
+    x flags g hg (by
+      rcases h with h | h
+      · exact Or.inl (might_of pref h)
+      · exact Or.inr h)
+  rw [hd]
+  simp only [cgjRound_single, ite_self]
+
+/-- U+2011 NON-BREAKING HYPHEN has no canonical decomposition in the crate's tables: with a glyph of its own it never
+    reaches the U+2010 fallback, in any mode (instance of the theorem above; the fallback is for fonts that lack it) -/
+theorem C16_nb_hyphen_own_glyph (F : Font) (K : Consts) (pref : Nat) (x : Info) (flags g : Nat)
+    (hx : x.cp = 0x2011) (hg : F.glyph 0x2011 = some g) :
+    normalize genU F K genFuel pref [x] flags = some ([{ x with gidx := g }], flags) := by
+  apply C16_mapped_single_every_mode genU F K genFuel pref x flags g (by rw [hx]; exact hg)
+  refine Or.inr ?_
+  rw [hx]
+  have hd : genU.decomp 0x2011 = none := by decide +kernel
+  exact decompose_none genU F false 7 0x2011 hd
+
+end RbModel.Norm
